@@ -11,15 +11,15 @@ CLAIMED = {
          "bounded exhaustive model (small ring), conformance by trace validation of random/model-shaped schedules at N=256; the harness's report of which jobs finished inside a call is trusted",
          "TLA+ model checking (TLC) + trace validation of recorded executions", "5 C05"),
  "C04": ("model_checking",
-         "Schedules mixing >=6 suites with distinct data/keys/IVs per lane are executed on every variant; each handed-back job is compared with the same job run alone on a fresh manager; the comparison bit is a conjunct of the trace specification, which also replays the ring model so that the schedule context (what was in flight, what finished when) of every comparison is validated.",
-         "run-alone result of the same variant is the reference; exhaustive model bounds as for C05",
+         "Schedules mixing >=6 suites with distinct data/keys/IVs per lane are executed on every variant; each handed-back job is compared with the same job run alone on a fresh manager; the comparison bit is a conjunct of the trace specification, which also replays the ring model so that the schedule context (what was in flight, what finished when) of every comparison is validated. Level B: spec/Ooo.tla and spec/Hmac.tla (lane machines mirroring the cipher and HMAC out-of-order managers) are model-checked for isolation (every cell written / every block absorbed belongs to the owning job, in order, once) and bound to the code by strict per-call fidelity runs (Trace_Ooo.tla); a directed lane-fill sweep visits every (suite, variant) with short and long unequal lengths.",
+         "run-alone result of the same variant is the reference; exhaustive model bounds as for C05; level-B strict disagreement is model drift, not a violation",
          "TLA+ trace validation with run-alone differential oracle", "5 C04"),
  "C14": ("model_checking",
          "The level-A actions fix the error code after every call (0 on success, the call's own code on failure, mirrored process-wide) and the final status of every handed-back job; recorded executions are validated against that, together with a field-by-field descriptor comparison for every returned job and a sweep of imb_get_strerror over the integer classes.",
          "descriptor fields named by the property are compared; length fields are informational (the CMAC path rewrites msg_len_to_hash_in_bits)",
          "TLA+ trace validation (errno/status per call) + descriptor snapshots", "5 C14"),
  "C06": ("model_checking",
-         "The whole finite product of suites (21 952 cells) is evaluated by TLC against the design-level dispatch properties (spec/Dispatch.tla: rows in range, row injectivity, AEAD-only-with-partner, stage-plan shape) and walked on the real library: for every cell, session acceptance and suite ids, job-API and burst-API execution with the stage hook recording each table dispatch, composition oracle and burst=job equality; spec/Trace_Dispatch.tla requires exactly the acceptance, error code, table rows and stage order the specification computes.",
+         "The whole finite product of suites (21 952 cells) is evaluated by TLC against the design-level dispatch properties (spec/Dispatch.tla: rows in range, row injectivity, AEAD-only-with-partner, stage-plan shape) and walked on the real library: for every cell, session acceptance and suite ids, job-API and burst-API execution with the stage hook recording each table dispatch, composition oracle and burst=job equality; spec/Trace_Dispatch.tla requires exactly the acceptance, error code, table rows and stage order the specification computes. Level B: spec/ChainOps.tla + Chain.tla model submit_new_job / RESUBMIT_JOB / complete_job over lane units (TLC: loops end, stage order, every unfinished job sits in the unit of its pending stage, each stage once); spec/Trace_Chain.tla composes it over the library's unit table and must predict call by call which jobs complete in mixed chained schedules (job and burst API).",
          "that the single-algorithm jobs equal the published algorithms is C01/C02; CUSTOM, PON and SGL suites are checked for acceptance/suite ids only",
          "exhaustive enumeration in TLC + trace validation of the per-cell walk (stage hook H1)", "5 C06"),
  "C07": ("exploration",
@@ -31,8 +31,8 @@ CLAIMED = {
          "avx2_t3/t4 cannot run on this host; the differential part trusts no variant but cannot see a defect common to all",
          "TLC over the selection function + trace validation (hook H2); cross-variant differential", "5 C08"),
  "C18": ("exploration",
-         "All manager entry points are called through an assembly trampoline that checks rbx, rbp, r12-r15, rsp, DF and MXCSR on return; single-job sweep over all suites/lengths/variants and multi-job schedules whose abi bit is a conjunct of the trace specification (submit that parks, submit that completes, flush at every occupancy, bursts).",
-         "direct-API functions are covered by the C09/C11 drivers' use of the same trampoline",
+         "All manager entry points are called through an assembly trampoline that checks rbx, rbp, r12-r15, rsp, DF and MXCSR on return; single-job sweep over all suites/lengths/variants and multi-job schedules whose abi bit is a conjunct of the trace specification (submit that parks, submit that completes, flush at every occupancy, bursts); synchronous cipher/hash/AEAD bursts at sizes below/at/above every lane count and the direct functions of the entry driver on all seven variants.",
+         "direct-API functions outside the entry driver's list are not wrapped",
          "ABI trampoline; TLA+ trace validation supplies the lane-state coverage", "5 C18"),
  "C20": ("fault_enumeration",
          "spec/SelfTest.tla models the KAT sequence, the START/CORRUPT/PASS|FAIL call-back protocol and the gate (pass bit and error code = conjunction of all results); TLC checks FailExactlyFaulted / GateIsConjunction / AnnouncesAll and termination for all fault sets of an abstract list; every recorded run of the real self-test (fault-free, every single entry, pairs, random subsets, 7 variants, explicit and auto init) must produce exactly the stream, bits and error code the specification yields, and the learned list must cover the documented algorithms.",
@@ -51,23 +51,23 @@ CLAIMED = {
          "old and new variant share the allocation-time flags; the fresh-manager twin uses the same seeds",
          "TLA+ model checking + trace validation with a lock-step fresh-manager twin", "5 C15"),
  "C16": ("fault_enumeration",
-         "Crash points are injected between API calls of random histories; the same process or a forked process (same addresses) re-attaches with imb_set_pointers_mb_mgr(reset=0); the model's Reattach action leaves every persistent variable unchanged, and the trace specification requires that the history continues unperturbed resp. that the re-attached process flushes every in-flight job in order, completed, with the run-alone result, finds the queue empty and the manager usable.",
+         "Crash points are injected between API calls of random histories; the same process or a forked process (same addresses) re-attaches with imb_set_pointers_mb_mgr(reset=0); the model's Reattach action leaves every persistent variable unchanged, and the trace specification requires that the history continues unperturbed resp. that the re-attached process flushes every in-flight job in order, completed, with the run-alone result, finds the queue empty and the manager usable. Directed probes put 17..33 jobs of one suite in flight for every (suite, variant) pair before the re-attach.",
          "the exec'ed-process variant (different library load address) is not built yet; fork keeps the load address",
          "crash-point enumeration validated against the TLA+ Reattach action", "5 C16"),
  "C17": ("model_checking",
-         "ImbMgr.tla is parameterised by a set of managers; TLC checks the ring invariants and the NonInterference action property (an action on one manager changes nothing of another, only the process-wide mirror) for two managers; on the real library three managers of random variants are interleaved in one thread and the trace is validated with Mgr = {0,1,2}; each manager's event sequence must equal the one it produces alone; 12 threads with own managers must reproduce their solo digests. The imb_get_errno() process-wide fallback is a recorded known finding.",
+         "ImbMgr.tla is parameterised by a set of managers; TLC checks the ring invariants and the NonInterference action property (an action on one manager changes nothing of another, only the process-wide mirror) for two managers; on the real library three managers of random variants are interleaved in one thread and the trace is validated with Mgr = {0,1,2}; each manager's event sequence must equal the one it produces alone; 12 threads with own managers must reproduce their solo digests; per suite, 12 threads run that suite simultaneously in a tight loop on pre-built jobs and every run must reproduce the solo digest. The imb_get_errno() process-wide fallback is a recorded known finding.",
          "thread schedules are not controlled; known finding KF-1 listed in known_findings.json",
          "TLA+ model checking (non-interference) + trace validation of interleavings + thread differential", "5 C17"),
  "C01": ("exploration",
-         "Reference-interpretation conformance: every catalogue cipher suite x direction x every message length 0..N x offsets x in-place x IV/counter classes is run on every variant and compared with an independent interpretation built from OpenSSL block primitives (harness/ref.c). The specification's contribution is the case partition and the multi-lane context in which the same suites are exercised by the model-validated schedule drivers (C04/C08); a TLA+ model cannot decide bit-exactness of a kernel.",
+         "Reference-interpretation conformance: every catalogue cipher suite x direction x every message length 0..N x offsets x in-place x IV/counter classes is run on every variant and compared with an independent interpretation built from OpenSSL block primitives (harness/ref.c). The specification's contribution is the case partition and the multi-lane context: the same comparison is a conjunct (Checks ref) of the trace specification for job/burst/mixed schedules and for a directed lane-fill sweep over every (suite, variant) with short and long unequal lengths; counter-carry length windows (4030..4150, 8130..8240) are dense. A TLA+ model cannot decide bit-exactness of a kernel.",
          "no independent reference offline for ZUC/SNOW3G/KASUMI/SNOW-V/CBCS (cross-variant differential + published vectors only)",
          "differential testing against a reference interpretation (exploration)", "5 C01"),
  "C02": ("exploration",
-         "As C01 for digests and MACs: all HMACs (key lengths 1..150 through the ipad/opad helper), plain SHA/SM3, XCBC, CMAC 128/256/bit-length, GMAC, GHASH, Poly1305 and the twelve CRCs, permitted tag lengths, every message length 0..N incl. padding thresholds, hash-only and chained jobs, every variant, against OpenSSL digests and from-the-definition MAC/CRC code.",
+         "As C01 for digests and MACs: all HMACs (key lengths 1..150 through the ipad/opad helper), plain SHA/SM3, XCBC, CMAC 128/256/bit-length, GMAC, GHASH, Poly1305 and the twelve CRCs, permitted tag lengths, every message length 0..N incl. padding thresholds, hash-only and chained jobs, every variant, against OpenSSL digests and from-the-definition MAC/CRC code; singly and, as a conjunct of the trace specification, inside schedules and the lane-fill sweep (full lanes, long unequal lengths).",
          "no independent reference offline for ZUC-EIA3, SNOW3G-UIA2, KASUMI-F9",
          "differential testing against a reference interpretation (exploration)", "5 C02"),
  "C03": ("exploration",
-         "AES-GCM (IV 1..64 bytes, AAD 0..600, tags 1..16), AES-CCM (nonce 7..13, AAD 0..46, even tags) and ChaCha20-Poly1305 in both directions, every plaintext length 0..N, every variant, against OpenSSL's AEADs; decrypt jobs must restore the plaintext and output the identical tag.",
+         "AES-GCM (IV 1..64 bytes, AAD 0..600, tags 1..16), AES-CCM (nonce 7..13, AAD 0..46, even tags) and ChaCha20-Poly1305 in both directions, every plaintext length 0..N, every variant, against OpenSSL's AEADs; decrypt jobs must restore the plaintext and output the identical tag; counter-carry length windows; the same comparison inside schedules (trace-specification conjunct).",
          "SNOW-V-AEAD, SM4-GCM, PON and DOCSIS+CRC32 have no independent reference here (cross-variant differential only)",
          "differential testing against a reference interpretation (exploration)", "5 C03"),
  "C11": ("exploration",
@@ -79,8 +79,8 @@ CLAIMED = {
          "QUIC helpers, HEC, SHA one-block and fixed-arity wireless calls not covered; known finding KF-2",
          "TLA+ trace validation of cross-entry-point differential runs", "5 C09"),
  "C13": ("exploration",
-         "Trampoline scrubs registers/dead stack before and dumps them after every call; in every quiescent state (established by the ring model during trace validation) registers, dead stack and the whole manager block are searched for 16-byte windows of keys, derived key material and plaintext of the jobs completed since the last quiescent state; the residue counts are conjuncts of the trace specification; a hit must repeat with fresh secrets. Sensitivity shown by a SAFE_DATA=OFF build (hundreds of hits).",
-         "key-preparation helpers only via consuming jobs; low-entropy secrets not searched",
+         "Trampoline scrubs registers/dead stack before and dumps them after every call; in every quiescent state (established by the ring model during trace validation) registers, dead stack and the whole manager block are searched for 8-byte windows of keys, derived key material and plaintext (hash-only messages included, as in the library's own safe check) of the jobs completed since the last quiescent state; the residue counts are conjuncts of the trace specification; a hit must repeat with fresh secrets. Sensitivity shown by a SAFE_DATA=OFF build (hundreds of hits).",
+         "key-preparation helpers only via consuming jobs; low-entropy secrets not searched; residues shorter than 8 bytes are below the scanner's resolution",
          "register/stack/manager residue scan in model-established quiescent states", "5 C13"),
 }
 
